@@ -342,12 +342,13 @@ def run_case(case):
     outs = {pop: f'{pop}/{POPOP[pop][0]}/{POPOP[pop][1]}' for pop in case['pops']}
     try:
         circ = build_pop(case)
+        extra = {'dde_approx': case['dde_approx']} if case.get('dde_approx') else {}
         df = circ.run(simulation_time=steps * DT, step_size=DT, sampling_step_size=DT, outputs=dict(outs), solver='euler',
-                      backend='default', vectorize=True, verbose=False, float_precision='float64', clear=True)
+                      backend='default', vectorize=True, verbose=False, float_precision='float64', clear=True, **extra)
     except Exception as e:
         sig['exc'] = type(e).__name__
         return viol('run_raises', detail=f'{type(e).__name__}: {e}'[:300])
-    gamma = [c for c in case['conns'] if c.get('spread')]
+    gamma = [c for c in case['conns'] if c.get('spread') or (c.get('delay') and case.get('dde_approx'))]
     if gamma:
         rows = gamma_reference(case, m, steps)
     else:
@@ -381,10 +382,11 @@ def gamma_reference(case, m, steps):
     new_edges = []
     cid = 0
     for c in case['conns']:
-        if not c.get('spread'):
+        if not (c.get('spread') or (c.get('delay') and case.get('dde_approx'))):
             continue
-        d, s = c['delay'], c['spread']
-        n = max(1, int(round((d / s) ** 2)))
+        d, s = c['delay'], c.get('spread')
+        # a spread defines its own kernel; dde_approx gives the order of connections that have a plain delay only
+        n = max(1, int(round((d / s) ** 2))) if s else int(case['dde_approx'])
         rate = n / d
         sp, tp = c['src'], c['tgt']
         sop, ssv = POPOP[sp][0], POPOP[sp][1]
@@ -403,7 +405,9 @@ def gamma_reference(case, m, steps):
                     pass
             for idx, e in enumerate(edges):
                 if e[0] == f'{sp}_{j}/{sop}/{ssv}' and e[1].split('_')[0] == tp:
-                    edges[idx] = (prev, e[1], e[2], e[3])
+                    a2 = dict(e[3])
+                    a2.pop('delay', None)      # the delay is realised by the chain
+                    edges[idx] = (prev, e[1], e[2], a2)
         cid += 1
     m2 = Model(ops, nodes, edges + new_edges, edge_tpls=m.edge_tpls)
     return solvers.euler_delayed(m2, DT, steps - 1)
